@@ -8,16 +8,18 @@ Variable H : string -> string.
 Variable enc : list json -> string.
 Variable parse_index : string -> option nat.
 Variable parse_usize : string -> option nat.
+Variable pos : string -> nat.
+Notation add_sd := (T1a.add_sd pos).
 Notation blind := (blind H enc).
 Notation dig_item := (dig_item H enc).
 Notation dig_mem := (dig_mem H enc).
 Notation wf := (wf H enc).
 Notation bitem := (bitem H enc).
 Notation bmem := (bmem H enc).
-Notation mark := (mark H enc parse_index parse_usize).
+Notation mark := (mark H enc parse_index parse_usize pos).
 Notation mk_disc := (mk_disc H enc).
-Notation disclose_here := (disclose_here H enc parse_usize).
-Notation build_disclosure := (build_disclosure H enc parse_index parse_usize).
+Notation disclose_here := (disclose_here H enc parse_usize pos).
+Notation build_disclosure := (build_disclosure H enc parse_index parse_usize pos).
 
 Definition sd_names_ok (m : string * (mkind * atree)) : Prop :=
   match fst (snd m) with MSd _ => fst m = "_sd" | _ => fst m <> "_sd" end.
@@ -28,7 +30,7 @@ Proof. exact (fun h => h). Qed.
 Lemma bmems_add_sd g : forall mems,
   StronglySorted slt (map fst mems) -> Forall sd_names_ok mems ->
   match obj_get "_sd" (flat_map bmem mems) with
-  | Some (JArr ds) => obj_insert "_sd" (JArr (ds ++ [JStr g])) (flat_map bmem mems) = flat_map bmem (add_sd g mems)
+  | Some (JArr ds) => obj_insert "_sd" (JArr (insert_at (pos g) (JStr g) ds)) (flat_map bmem mems) = flat_map bmem (add_sd g mems)
   | Some _ => False
   | None => obj_insert "_sd" (JArr [JStr g]) (flat_map bmem mems) = flat_map bmem (add_sd g mems)
   end.
@@ -41,7 +43,7 @@ Proof.
   - (* the existing _sd member *)
     apply String.compare_eq_iff in Ec. subst n.
     destruct k as [| |l]; try (exfalso; apply Hn1; reflexivity).
-    cbn. rewrite map_app. reflexivity.
+    cbn. rewrite insert_at_map. reflexivity.
   - (* every key is larger: no _sd member *)
     assert (Hnone : obj_get "_sd" (flat_map bmem ((n, (k, s)) :: r)) = None).
     { apply obj_get_none. intros Hin. apply (keys_bmems H enc) in Hin. cbn in Hin. destruct Hin as [Hq|Hin].
